@@ -28,6 +28,10 @@ package main
 //	                       oversize, beyond the datagram) whose body starts with
 //	                       `if handshakeComplete { c.rawInputBuf = nil; continue }`
 //	replayRxRecordHeaderChecks number of those header checks found (4)
+//	replayRxSeqArgFull     in Conn.ReadFrom and Conn.readRecordOrCCS the only argument of the only
+//	                       c.replayWindow.check call is the variable seqNum, assigned exactly once,
+//	                       by `seqNum := uint48(hdr[5])<<40 | … | uint48(hdr[10])` with
+//	                       `hdr := c.rawInputBuf[:recordHeaderLen]`: all 48 bits of the header field
 
 import (
 	"go/ast"
@@ -382,6 +386,53 @@ func emitReplay(e *emitter, p *pkg) {
 		bound = false
 	}
 	e.boolean("replayRxSeqBound", bound)
+
+	// the number handed to the window is the complete 48-bit sequence number of the header
+	const seqExpr = "uint48(hdr[5])<<40 | uint48(hdr[6])<<32 | uint48(hdr[7])<<24 | uint48(hdr[8])<<16 | uint48(hdr[9])<<8 | uint48(hdr[10])"
+	full := true
+	for _, key := range []string{"Conn.ReadFrom", "Conn.readRecordOrCCS"} {
+		fd := p.funcs[key]
+		if fd == nil || fd.Body == nil {
+			full = false
+			continue
+		}
+		seqDefs, seqOK, hdrDefs, hdrOK, checks, checkOK := 0, false, 0, false, 0, false
+		ast.Inspect(fd.Body, func(n ast.Node) bool {
+			switch t := n.(type) {
+			case *ast.AssignStmt:
+				for i, l := range t.Lhs {
+					switch p.src(l) {
+					case "seqNum":
+						seqDefs++
+						seqOK = t.Tok == token.DEFINE && len(t.Lhs) == 1 && len(t.Rhs) == 1 && i == 0 &&
+							strings.Join(strings.Fields(p.src(t.Rhs[0])), "") == strings.Join(strings.Fields(seqExpr), "")
+					case "hdr":
+						hdrDefs++
+						hdrOK = t.Tok == token.DEFINE && len(t.Lhs) == 1 && len(t.Rhs) == 1 &&
+							p.src(t.Rhs[0]) == "c.rawInputBuf[:recordHeaderLen]"
+					}
+				}
+			case *ast.IncDecStmt:
+				if p.src(t.X) == "seqNum" {
+					seqDefs++
+				}
+			case *ast.UnaryExpr:
+				if t.Op == token.AND && (p.src(t.X) == "seqNum" || p.src(t.X) == "hdr") {
+					seqDefs++
+				}
+			case *ast.CallExpr:
+				if p.src(t.Fun) == "c.replayWindow.check" {
+					checks++
+					checkOK = len(t.Args) == 1 && p.src(t.Args[0]) == "seqNum"
+				}
+			}
+			return true
+		})
+		if seqDefs != 1 || !seqOK || hdrDefs != 1 || !hdrOK || checks != 1 || !checkOK {
+			full = false
+		}
+	}
+	e.boolean("replayRxSeqArgFull", full)
 	e.nat("replayRxRecordHeaderChecks", int64(checks), checks > 0)
 	e.nat("replayRxRecordMalformedDrops", int64(drops), true)
 }
